@@ -16,7 +16,9 @@ DAY_OFFSET = 4383  # days from 1958-01-01 to 1970-01-01
 DT_TOL = dt.timedelta(microseconds=1)
 SEC_TOL = 1e-5
 
-DAYS = [0, 1, 2, 365, 4382, 4383, 4384, 4385, 10000, 19000, 24855, 24856, 32767, 32768, 49710, 49711, 65534, 65535]
+# 4383 = 1970-01-01; 29238 / 54093 = the days on which the Unix time passes 2^31 / 2^32 seconds; 15340 / 51864 = 2000-01-01 / 2100-01-01 (leap-year rule);
+# 15399 / 15400 = 2000-02-29 / 03-01; 51923 = 2100-03-01 (no Feb 29 that year)
+DAYS = [0, 1, 2, 365, 4382, 4383, 4384, 4385, 10000, 15340, 15399, 15400, 19000, 24855, 24856, 29237, 29238, 29239, 32767, 32768, 49710, 49711, 51864, 51922, 51923, 54092, 54093, 54094, 65534, 65535]
 MSS = [0, 1, 2, 999, 1000, 1001, 43_199_999, 43_200_000, 43_200_001, 86_398_999, 86_399_000, 86_399_998, 86_399_999]
 
 
@@ -123,6 +125,9 @@ def st_datetime_us():
         st.integers(0, pre // 1000).map(lambda k: k * 1000),
         st.tuples(st.sampled_from(DAYS), st.sampled_from(MSS), st.sampled_from([0, 0, 1, 499, 500, 501, 999])).map(lambda t: (t[0] * MS_DAY + t[1]) * 1000 + t[2]),
         st.tuples(st.integers(0, 65535), st.integers(0, 86399), st.sampled_from([1000, 2000, 9000, 57000, 999000, 1001, 123456])).map(lambda t: (t[0] * 86400 + t[1]) * 1_000_000 + t[2]),
+        # instants around the Unix time 2^31 and 2^32 seconds, around the epoch itself, and around the last representable day
+        st.tuples(st.sampled_from([DAY_OFFSET * 86400 + (1 << 31), DAY_OFFSET * 86400 + (1 << 32), DAY_OFFSET * 86400, 65535 * 86400, 65536 * 86400 - 1]), st.integers(-3, 3),
+                  st.sampled_from([0, 1, 999, 1000, 500_000, 999_000, 999_999])).map(lambda t: min(max((t[0] + t[1]) * 1_000_000 + t[2], 0), MAX_DT_US)),
     )
 
 
